@@ -1,5 +1,6 @@
 import Anysystem.Proofs.SimNetThms
 import Anysystem.Proofs.SimQueueThms
+import Anysystem.Proofs.SimLogThms
 /-!
 # C17 — Logs, event logs, counters and outboxes tell one consistent story
 
@@ -12,5 +13,10 @@ namespace Anysystem
 #check @Sim.send_cut_dropped
 #check @Sim.addProcess_fresh
 #check @Sim.crashNode_cancels
+#check @Sim.readNode_drains
+#check @Sim.handleActions_loc_outbox
+#check @Sim.handleActions_send_counts
+#check @Sim.onMessage_counts
+#check @Sim.handleActions_counts
 
 end Anysystem
